@@ -112,6 +112,11 @@ def explore(chk):
                      ("microdvd", "{25}{50}uno|dos\n{75}{100}tres|cuatro\n")]
             ops += [("read", len(docs) - 3, False), ("read", len(docs) - 2, False), ("edit", "break_node", "last"), ("read", len(docs) - 1, False),
                     ("read", len(docs) - 3, True), ("edit", "break_node", "last"), ("read", len(docs) - 2, True)]
+            # two cues with the same cue settings; the layout object of one of them is edited in place; then the document (and
+            # another one with the same settings) is read again
+            docs += [("webvtt", "WEBVTT\n\n00:01.000 --> 00:02.000 line:10% align:left\none\n\n00:03.000 --> 00:04.000 line:10% align:left\ntwo\n\n00:05.000 --> 00:06.000\nthree\n"),
+                     ("webvtt", "WEBVTT\n\n00:01.000 --> 00:02.000 line:10% align:left\nother\n")]
+            ops += [("read", len(docs) - 2, False), ("edit", "layout_settings", "last"), ("read", len(docs) - 2, False), ("read", len(docs) - 1, True)]
         if h % 5 == 2:
             # two SCC documents with italics; then the style node of one result is edited in place
             def scc(word_a, word_b):
@@ -254,6 +259,10 @@ def explore(chk):
                             bn = [n for n in c_.nodes if n.type_ == 3]
                             if bn:
                                 bn[0].layout_info = Layout(alignment=Alignment(HorizontalAlignmentEnum.RIGHT, VerticalAlignmentEnum.TOP)); break
+                    elif kind == "layout_settings":
+                        for c_ in caps:
+                            if c_.layout_info is not None:
+                                c_.layout_info.webvtt_positioning = "line:90% align:right"; break
                     elif kind == "set_style_content":
                         for sel, st in cs.get_styles():
                             if isinstance(st, dict):
